@@ -636,8 +636,21 @@ func init() {
 			// (compiled pattern, subject); the harness reference uses the same function.
 			pat := (*a[0].(*value)).(structure)[0].(string)
 			if deepConcrete(a[1]) {
-				// concrete subject: the host's regexp decides (exact)
-				return regexp.MustCompile(pat).MatchString(i.concString(a[1]))
+				// concrete subject: the host's regexp decides (exact); the uninterpreted predicate is
+				// pinned to that answer at this point so that a symbolic subject that may equal this
+				// string gets the same verdict (congruence)
+				res := regexp.MustCompile(pat).MatchString(i.concString(a[1]))
+				if !i.concreteMode {
+					u := i.ufCall("re:"+pat, []value{iface{types.Typ[types.String], a[1]}}, types.Bool)
+					if us, ok := u.(*Sym); ok {
+						if res {
+							i.assume(us)
+						} else {
+							i.assume(i.mk(i.tb.Not(us.T), types.Bool))
+						}
+					}
+				}
+				return res
 			}
 			return i.ufCall("re:"+pat, []value{iface{types.Typ[types.String], a[1]}}, types.Bool)
 		},
